@@ -29,6 +29,13 @@
 (*   relay.SetDeadline  proxies.go:123.. error text is not used            *)
 (*   dial               proxies.go:247 covert dial: text names the covert, *)
 (*                      never the client                                   *)
+(* and, before classification starts:                                      *)
+(*   accept.File        conns.go:91   handleNewConn: clientConn.File()     *)
+(*                      fails (fd exhaustion): *net.OpError naming both    *)
+(*                      endpoints, logged at Error                         *)
+(*   geoip.CC/geoip.ASN conns.go:162/169 the GeoIP library's lookup error  *)
+(*                      formats the address it was asked about (the        *)
+(*                      client's) into its text; logged at Error           *)
 (*                                                                         *)
 (* Sanitizer = "intended": every error leaves the sanitiser address-free   *)
 (*           = "listed"  : only the anticipated kinds are replaced, any    *)
@@ -45,7 +52,8 @@ CONSTANTS Kinds,           \* error kinds, see Listed / TimeoutKinds below
           Fams,            \* "v4" "v6" "v4mapped"
           LogIPs,          \* subset of BOOLEAN: LOG_CLIENT_IP settings explored
           Sanitizer, RawDeadlineLog,
-          IngestPrintsRegistrant  \* ingest sites whose log line includes the registrant address ({} intended)
+          IngestPrintsRegistrant, \* ingest sites whose log line includes the registrant address ({} intended)
+          RawSites                \* pre-classification sites that print the error as returned ({} intended)
 
 VARIABLES pc, case, txt, out, obs
 
@@ -57,7 +65,9 @@ RelaySites == {"relay.Read", "relay.Write", "relay.CloseDst", "relay.CloseSrc", 
 IngestSites == {"ingest.drop-log-names-registrant",      \* covert == "" branch: "Dropping reg, malformed or blocklisted covert"
                 "ingest.validate-incomplete", "ingest.validate-transport-disabled", "ingest.new-v6-phantom",
                 "ingest.duplicate", "ingest.new-v4-phantom-liveness", "ingest.detector-source"}
-Sites == ClsSites \cup RelaySites \cup {"dial"} \cup IngestSites
+GeoSites == {"geoip.CC", "geoip.ASN"}
+PreSites == {"accept.File"} \cup GeoSites
+Sites == ClsSites \cup RelaySites \cup {"dial"} \cup IngestSites \cup PreSites
 
 Closedish    == {"closed", "EOF", "EPIPE"}
 Sentinel     == [RST |-> "rst", REFUSED |-> "refused", ABORTED |-> "aborted", HOSTUNREACH |-> "unreachable"]
@@ -68,6 +78,8 @@ TimeoutKinds == {"timeout", "ETIMEDOUT"}
 \* local-only shape in reality; the property quantifies over the both-endpoints shape for them as well.
 \* io.EOF is always bare.
 ShapeOK(s, k, w) == /\ (s \in IngestSites <=> k = "registrant") /\ (s \in IngestSites <=> w = "field")
+                    /\ (s = "accept.File" <=> k = "EMFILE") /\ (k = "EMFILE" => w = "op")
+                    /\ (s \in GeoSites <=> k = "lookup") /\ (s \in GeoSites <=> w = "names-ip")
                     /\ (k = "EOF" => w = "bare")
                     /\ (s = "dial" => w = "op" /\ k = "REFUSED")   \* the only dial failure that can be provoked offline
                     /\ (k \in {"other"} /\ w = "sys" => FALSE)   \* an opaque error has no errno to wrap
@@ -75,6 +87,7 @@ ShapeOK(s, k, w) == /\ (s \in IngestSites <=> k = "registrant") /\ (s \in Ingest
 
 \* the error's text names the client's endpoint
 Tainted(s, k, w) == \/ s \in IngestSites
+                    \/ w = "names-ip"
                     \/ s # "dial" /\ w \in {"op", "fmt"} /\ k # "EOF"
 
 \* generalizeErr as a function on (kind, wrapping): the set of result classes it may produce.
@@ -89,10 +102,11 @@ San(s, k, w) ==
     [] k \in TimeoutKinds -> IF Sanitizer = "intended" THEN {"timeout", "generic"} ELSE {"raw"}
     [] OTHER -> IF Sanitizer = "intended" THEN {"generic"} ELSE {"raw"}
 
-Sanitised(s) == IF s \in {"init.SetDeadline", "found.SetDeadline"} THEN ~RawDeadlineLog ELSE TRUE
+Sanitised(s) == IF s \in {"init.SetDeadline", "found.SetDeadline"} THEN ~RawDeadlineLog
+                ELSE IF s \in PreSites THEN s \notin RawSites ELSE TRUE
 
 \* the site's sink and whether it is visible at the default log level (Error)
-Sink(s) == CASE s \in {"init.SetDeadline", "found.SetDeadline", "noreg.Read", "notransport.Read", "loop.Read"} -> "log.error"
+Sink(s) == CASE s \in {"init.SetDeadline", "found.SetDeadline", "noreg.Read", "notransport.Read", "loop.Read"} \cup PreSites -> "log.error"
              [] s = "transport.Wrap" -> "log.warn"
              [] s \in {"relay.Read", "relay.Write", "relay.CloseDst", "relay.CloseSrc"} -> "stats"
              [] s = "dial" -> "stats"
@@ -114,6 +128,7 @@ Init == pc = "pick" /\ case = None /\ txt = "none" /\ out = None /\ obs = [a |->
 
 Pick(s, k, w, f, ip) ==
   /\ pc = "pick" /\ ShapeOK(s, k, w)
+  /\ (s \in GeoSites => f = "v6")     \* the lookup that can be made to fail offline: an IPv6 client against an IPv4-only database
   /\ case' = [site |-> s, k |-> k, w |-> w, fam |-> f, logip |-> ip]
   /\ pc' = "fail" /\ UNCHANGED <<txt, out>>
   /\ obs' = [a |-> "Pick"]
@@ -143,7 +158,7 @@ Emit ==
              classes |-> IF Sanitised(case.site) THEN San(case.site, case.k, case.w) ELSE {"raw"},
              \* with LOG_CLIENT_IP on, the connection's log prefix carries the address: it must show whenever the
              \* site certainly writes an Error-level line before the prefix is replaced (detector non-vacuity)
-             show |-> case.logip /\ out.sink = "log.error" /\ ~(case.site \in {"noreg.Read", "notransport.Read"} /\ out.class \in {"closed", "nil"})]
+             show |-> case.logip /\ out.sink = "log.error" /\ case.site # "accept.File" /\ ~(case.site \in {"noreg.Read", "notransport.Read"} /\ out.class \in {"closed", "nil"})]
 
 Next == \/ \E s \in Sites, k \in Kinds, w \in Wraps, f \in Fams, ip \in LogIPs : Pick(s, k, w, f, ip)
         \/ Fail \/ Emit
